@@ -405,7 +405,7 @@ Error BaseCompiler::_new_stack(Out<BaseMem> out, uint32_t size, uint32_t alignme
 
 Error BaseCompiler::set_stack_size(uint32_t virt_id, uint32_t new_size, uint32_t new_alignment) {
   if (!is_virt_id_valid(virt_id)) {
-    return make_error(Error::kInvalidVirtId);
+    return report_error(make_error(Error::kInvalidVirtId));
   }
 
   if (!Support::is_zero_or_power_of_2(new_alignment)) {
